@@ -139,7 +139,7 @@ func c10One(res *vlib.Result, ca, sa, ce, se security.SecurityLevel, sh c10Shape
 func C10Plan() *vlib.Plan {
 	p := &vlib.Plan{
 		Property: "C10", Level: "model_checking",
-		Rule: "E-ENUM: full 4^4 matrix of (client auth, server auth, client enc, server enc) levels x method-list shapes (same, reversed, disjoint, empty either side, unimplemented first/only, token with/without a usable token) x {common cipher, none} x {command, auth-only}; each cell runs two real endpoints over an in-memory pipe with a passive frame recorder. Oracle = decision table written from the property text (fail/succeed, authentication runs, encryption on, explicit denial) + agreement of both reports + ping/pong. state = policy cell outcome class; transitions = handshakes executed.",
+		Rule:   "E-ENUM: full 4^4 matrix of (client auth, server auth, client enc, server enc) levels x method-list shapes (same, reversed, disjoint, empty either side, unimplemented first/only, token with/without a usable token) x {common cipher, none} x {command, auth-only}; each cell runs two real endpoints over an in-memory pipe with a passive frame recorder. Oracle = decision table written from the property text (fail/succeed, authentication runs, encryption on, explicit denial) + agreement of both reports + ping/pong. state = policy cell outcome class; transitions = handshakes executed.",
 		Assume: []string{"CLAIMTOBE, TOKEN and the unimplemented PASSWORD stand for the method alphabet (SSL/KERBEROS/SCITOKENS cannot complete offline)"},
 	}
 	p.Gen = func(tier string, yield func(vlib.Case)) {
